@@ -405,7 +405,17 @@ class Inliner:
                 body.extend(u)
             else:
                 body.append(s)
+        prev = None
         for s in body:
+            # `t = (a, b)` directly followed by a statement that calls `helper(*t)`: the call is `helper(a, b)`
+            if isinstance(prev, ast.Assign) and len(prev.targets) == 1 and isinstance(prev.targets[0], ast.Name) and isinstance(prev.value, (ast.Tuple, ast.List)) \
+                    and all(_simple(e) for e in prev.value.elts) and not isinstance(s, (ast.For, ast.While, ast.If, ast.Try, ast.With, ast.FunctionDef, ast.ClassDef)):
+                for c in ast.walk(s):
+                    if isinstance(c, ast.Call) and any(isinstance(a, ast.Starred) and isinstance(a.value, ast.Name) and a.value.id == prev.targets[0].id for a in c.args) \
+                            and self.resolve(c, cls) is not None:
+                        c.args = [x for a in c.args for x in ([copy.deepcopy(e) for e in prev.value.elts]
+                                                              if isinstance(a, ast.Starred) and isinstance(a.value, ast.Name) and a.value.id == prev.targets[0].id else [a])]
+            prev = s
             if isinstance(s, (ast.FunctionDef, ast.AsyncFunctionDef, ast.ClassDef)):
                 out.append(s)
                 continue
